@@ -7,6 +7,6 @@ CONSTANTS
   StaleTimeout = TRUE
   InitStates = {"Queued", "Locked"}
   B <- BRestart
-  MaxHist = 60
+  MaxHist = 120
 INVARIANTS Emit
 CHECK_DEADLOCK FALSE
